@@ -84,4 +84,46 @@ example : iterateOps ⟨[⟨1, 1, 1, true, .A, none, 0, none, true⟩, ⟨2, 2, 
     [⟨1, 1, 1, .M, .Y, true⟩, ⟨2, 1, 2, .M, .Y, true⟩], [], [], [], [], 10⟩ ⟨1, fun _ => true⟩
     = [.check ⟨1, 1, 1, .M, .Y, true⟩ true] := by decide
 
+/-- **C07.d (initialisation)** the main loop queues an init task for a node only if that node is local, active,
+    currently fails the marker check, and a pending init request *naming that node* exists -/
+theorem C07_init_only_on_request (w : World) (hv : HostView) (reqs : List InitReq) (n r : Nat)
+    (h : (n, r) ∈ initTasks w hv reqs) :
+    (∃ nd ∈ w.nodes, nd.id = n ∧ nd.host = hv.host ∧ nd.active = true ∧ hv.initialised nd.id = false) ∧
+    (∃ q ∈ reqs, q.id = r ∧ q.node = n ∧ q.completed = false) := by
+  unfold initTasks at h
+  rw [List.mem_filterMap] at h
+  obtain ⟨nd, hnd, hmap⟩ := h
+  rw [List.mem_filter] at hnd
+  obtain ⟨hmem, hcond⟩ := hnd
+  cases hf : reqs.find? (fun r => r.node == nd.id && !r.completed) with
+  | none => simp [hf] at hmap
+  | some q =>
+    simp [hf] at hmap
+    obtain ⟨h1, h2⟩ := hmap
+    have hq := List.find?_some hf
+    have hqm := List.mem_of_find?_eq_some hf
+    simp at hcond hq
+    refine ⟨⟨nd, hmem, h1, hcond.1.1, hcond.1.2, hcond.2⟩, ⟨q, hqm, h2, ?_, hq.2⟩⟩
+    rw [hq.1, h1]
+
+/-- no pending request for a node ⇒ no init task for it, whatever other requests exist -/
+theorem C07_no_request_no_init (w : World) (hv : HostView) (reqs : List InitReq) (n : Nat)
+    (h : ∀ q ∈ reqs, q.node = n → q.completed = true) : ∀ r, (n, r) ∉ initTasks w hv reqs := by
+  intro r hmem
+  obtain ⟨_, q, hq, _, hn, hc⟩ := C07_init_only_on_request w hv reqs n r hmem
+  have := h q hq hn
+  rw [this] at hc
+  cases hc
+
+/-- the init task writes the marker only when the node is not initialised at that moment, and completes the request
+    exactly when the node ends up initialised -/
+theorem C07_init_task (i ok : Bool) :
+    ((initTask i ok).1 = true → i = false ∧ ok = true) ∧ ((initTask i ok).2 = true ↔ (i = true ∨ ok = true)) := by
+  cases i <;> cases ok <;> simp [initTask]
+
+private def initExampleNodes : List WNode :=
+  [⟨1, 1, 1, true, .A, none, 0, none, false⟩, ⟨2, 2, 1, true, .A, none, 0, none, false⟩]
+
+example : initTasks ⟨initExampleNodes, [], [], [], [], [], [], 0⟩ ⟨1, fun _ => false⟩ [⟨7, 2, false⟩] = [(2, 7)] := by decide
+
 end Alpen
